@@ -34,8 +34,8 @@ def run(ctx):
         rows = P.table(ctx, 'io_loop::Inner::start_heartbeats', ['self', 'interval'])
         site = ctx.site('io_loop::Inner::start_heartbeats')
         # `interval > 0` and `interval != 0` are the same test of a u16
-        on = [x for x in rows if x.conds in ([('(0 < interval)', True)], [('(interval == 0)', False)])]
-        off = [x for x in rows if x.conds in ([('(0 < interval)', False)], [('(interval == 0)', True)])]
+        on = [x for x in rows if x.conds in ([('(0 < interval)', True)], [('(0 == interval)', False)])]
+        off = [x for x in rows if x.conds in ([('(0 < interval)', False)], [('(0 == interval)', True)])]
         r.check('enabled', len(on) == 1 and on[0].effects[-1] == HT + 'HeartbeatTimers::start(self.heartbeats, std::time::Duration::from_secs(interval))', site, built=[x.row() for x in on],
                 why='the announced interval is in seconds')
         r.check('disabled-when-0', len(off) == 1 and not off[0].effects, site, built=[x.row() for x in off], why='h = 0: no timers, no heartbeats, silence never fatal')
